@@ -38,7 +38,7 @@ out += ["The builders' own mutation tables (another ~150 mutants, all but a few 
 "Changes written by fresh sub-agents that were given only the text of one property and a",
 "scratch worktree of the repository (nothing from /verif): two per property in each round",
 "(round 1: -A/-B; round 2: -C/-D, the agents also got one-line descriptions of the earlier",
-"changes and were asked for different mechanisms; round 3: -E/-F and round 4: -G/-H, likewise).",
+"changes and were asked for different mechanisms; round 3: -E/-F, round 4: -G/-H and round 5: -I/-J, likewise).",
 "Each was re-verified by tools/seedstore.py against /repo's HEAD: the demonstration passes",
 "on the clean tree; with the patch the library builds, its own tests pass and the",
 "demonstration fails; then the property's quick check was run against the patched files.",
@@ -62,6 +62,9 @@ for d in sorted(glob.glob(R + "/seeded/C*-*")):
     files = m.get("files")
     files = ", ".join(files) if isinstance(files, list) else str(files)
     sid = os.path.basename(d)
-    out.append(f"| {sid} | {files} | {summ} | {'missed' if sid in first_miss else 'caught'} | {'caught' if lv.get('detected') else 'MISSED'} | `{keys[0][:70] if keys else ''}` | {lv.get('check_wall_s')} |")
+    now = 'caught' if lv.get('detected') else 'MISSED'
+    if m.get('not_kept'):
+        now = 'not kept (outside the property)'
+    out.append(f"| {sid} | {files} | {summ} | {'missed' if sid in first_miss else 'caught'} | {now} | `{keys[0][:70] if keys else ''}` | {lv.get('check_wall_s')} |")
 open(R + "/SELFTEST.md", "w").write("\n".join(out) + "\n")
 print("written")
